@@ -1229,8 +1229,7 @@ Proof.
     + intros j Hj. apply nthN_app_l. apply D. auto.
   - (* recycled slot *)
     set (m0 := set_ms_free (set_ms_members m (updN (ms_members m) (N.to_nat i) (fun _ => member_default))) fr) in *.
-    assert (Hif : In i (ms_free m)) by (rewrite Hfree; left; reflexivity).
-    assert (Hfresh : ~ In i (ms_order m)) by (intros Hin; exact (C i Hin Hif)).
+    assert (Hfresh : ~ In i (ms_order m)) by (intros Hin; apply (C i Hin); left; reflexivity).
     assert (Hord : exists ord', l_ins l (ms_order m) i = Some ord' /\ m1 = set_ms_order m0 ord' /\ idx = i).
     { destruct l as [|p|p|r|r]; cbn in Hi |- *.
       1-3: injection Hi as <- <-; eexists; repeat split.
@@ -1238,20 +1237,497 @@ Proof.
     destruct Hord as (ord' & Hl & -> & ->).
     split; [exact Hfresh|]. split; [exact Hl|].
     pose proof (l_ins_In _ _ _ _ Hl) as HIn.
-    rewrite Hfree in B. inversion B as [|? ? Hifr Hfr]; subst.
-    assert (Hil : (N.to_nat i < length (ms_members m))%nat) by (apply D; auto).
+    inversion B as [|? ? Hifr Hfr]; subst.
+    assert (Hil : (N.to_nat i < length (ms_members m))%nat) by (apply D; right; left; reflexivity).
     split; [|split; [|split]]; cbn [ms_members ms_order ms_free set_ms_order set_ms_members set_ms_free m0
                                     ms_align ms_orphans ms_zombie_lines ms_target]; auto.
     + constructor; cbn [ms_members ms_order ms_free set_ms_order set_ms_members set_ms_free m0].
       * eapply l_ins_NoDup; eauto.
       * exact Hfr.
       * intros j Hj Hjf. apply HIn in Hj. destruct Hj as [->|Hj]; [tauto|].
-        apply (C j Hj). rewrite Hfree. right. exact Hjf.
+        apply (C j Hj). right. exact Hjf.
       * rewrite updN_length. intros j [Hj|Hj].
         -- apply HIn in Hj. destruct Hj as [->|Hj]; [exact Hil | apply D; auto].
-        -- apply D. right. rewrite Hfree. right. exact Hj.
-      * rewrite updN_length, (l_ins_length _ _ _ _ Hl), E, Hfree. cbn. lia.
-      * intros j Hj. rewrite nthN_updN_neq; [|intros ->; tauto]. apply F. rewrite Hfree. right. exact Hj.
+        -- apply D. right. right. exact Hj.
+      * rewrite updN_length, (l_ins_length _ _ _ _ Hl), E. cbn. lia.
+      * intros j Hj. rewrite nthN_updN_neq; [|intros ->; tauto]. apply F. right. exact Hj.
     + apply nthN_updN_eq. exact Hil.
     + intros j Hj. apply nthN_updN_neq. intros ->. tauto.
 Qed.
+
+Definition loc_of (s : sys) (bl : bloc) : option iloc :=
+  match bl with
+  | BEnd => Some LEnd
+  | BIndex i => Some (LIndex i)
+  | BFromBack i => Some (LFromBack i)
+  | BAfter r => match b_target (get_bar s r) with TMulti i => Some (LAfter i) | _ => None end
+  | BBefore r => match b_target (get_bar s r) with TMulti i => Some (LBefore i) | _ => None end
+  end.
+
+Lemma is_member_target s b : is_member s b = true -> exists i, b_target (get_bar s b) = TMulti i.
+Proof. unfold is_member. destruct (b_target (get_bar s b)); try discriminate. eauto. Qed.
+
+Lemma insert_sim s a bl b l m1 idx :
+  MInv s -> Refines s a -> op_ok s (OInsert bl b) = true ->
+  loc_of s bl = Some l -> ms_insert (s_mp s) l = Some (m1, idx) ->
+  let s1 := upd_bar (set_s_mp s m1) b (fun x => set_b_target x (TMulti idx)) in
+  MInv s1 /\ Refines s1 (a_struct a (OInsert bl b)).
+Proof.
+  intros MI RF Hk Hloc Hins s1. pose proof (MInv_core s MI) as CI.
+  unfold op_ok in Hk. cbn [op_bar] in Hk. apply andb_prop in Hk. destruct Hk as [Ha Hk].
+  apply andb_prop in Hk. destruct Hk as [Hnm Href]. apply negb_true_iff in Hnm.
+  pose proof (alive_inrange s b Ha) as Hl.
+  destruct (ms_insert_spec (s_mp s) l m1 idx CI Hins) as (Hfresh & Hlins & CI1 & Hdef & Hmem & Hal & Hor & Hzl & Htg).
+  assert (Hgb : get_bar s1 b = set_b_target (get_bar s b) (TMulti idx)).
+  { unfold s1. apply (get_upd_same (set_s_mp s m1)). exact Hl. }
+  assert (Hgo : forall b', b' <> b -> get_bar s1 b' = get_bar s b').
+  { intros b' Hn. unfold s1. rewrite get_upd_other by congruence. reflexivity. }
+  assert (Hmp : s_mp s1 = m1) by reflexivity.
+  assert (Hbo : ~ In b (a_order a)).
+  { intros Hin. rewrite (rf_member s a RF b Hin) in Hnm. discriminate. }
+  assert (Hsl : forall y, y <> b -> slot_of s1 y = slot_of s y /\ is_member s1 y = is_member s y /\ alive s1 y = alive s y).
+  { intros y Hn. unfold slot_of, is_member, alive. rewrite Hgo by exact Hn. auto. }
+  assert (Hsb : slot_of s1 b = idx /\ is_member s1 b = true /\ alive s1 b = true).
+  { unfold slot_of, is_member, alive. rewrite Hgb. cbn. auto. }
+  assert (HIn := l_ins_In _ _ _ _ Hlins).
+  assert (Hzf : forall j, In j (ms_order (s_mp s)) -> zflag m1 j = zflag (s_mp s) j).
+  { intros j Hj. unfold zflag. rewrite Hmem by exact Hj. reflexivity. }
+  split.
+  - apply MInv_of.
+    + rewrite Hmp. exact CI1.
+    + intros b' i Ha' Ht'. rewrite Hmp. destruct (N.eq_dec b' b) as [->|Hn].
+      * rewrite Hgb in Ht'. cbn in Ht'. injection Ht' as <-. split; [apply HIn; auto|].
+        unfold zflag. rewrite Hdef. reflexivity.
+      * unfold alive in Ha'. rewrite Hgo in Ha', Ht' by exact Hn.
+        destruct (mi_alive s MI b' i Ha' Ht') as [Hi Hz]. split; [apply HIn; auto|].
+        rewrite Hzf by exact Hi. exact Hz.
+    + intros b1 b2 i A1 A2 T1 T2.
+      destruct (N.eq_dec b1 b) as [->|N1], (N.eq_dec b2 b) as [->|N2]; auto.
+      * exfalso. rewrite Hgb in T1. cbn in T1. injection T1 as <-.
+        unfold alive in A2. rewrite Hgo in A2, T2 by exact N2.
+        apply Hfresh. eapply (mi_alive s MI); eauto.
+      * exfalso. rewrite Hgb in T2. cbn in T2. injection T2 as <-.
+        unfold alive in A1. rewrite Hgo in A1, T1 by exact N1.
+        apply Hfresh. eapply (mi_alive s MI); eauto.
+      * unfold alive in A1, A2. rewrite Hgo in A1, A2, T1, T2 by assumption. eapply (mi_distinct s MI); eauto.
+  - destruct RF as [R1 R2 R3 R4 R5 R6]. cbn [a_struct].
+    assert (Hmap : map (slot_of s1) (a_order a) = map (slot_of s) (a_order a)).
+    { apply map_ext_in. intros y Hy. apply Hsl. intros ->. tauto. }
+    assert (HaIn : forall y, In y (a_ins bl b (a_order a)) -> y = b \/ In y (a_order a)).
+    { intros y. destruct bl as [|p|p|r|r]; cbn [a_ins].
+      - rewrite in_app_iff. cbn. intuition congruence.
+      - rewrite insert_at_In. tauto.
+      - rewrite insert_at_In. tauto.
+      - destruct (posN r (a_order a)); [rewrite insert_at_In|]; tauto.
+      - destruct (posN r (a_order a)); [rewrite insert_at_In|]; tauto. }
+    assert (Hpos : forall r i, alive s r = true -> b_target (get_bar s r) = TMulti i ->
+                     posN i (ms_order (s_mp s)) = posN r (a_order a) /\ In r (a_order a)).
+    { intros r i Har Htr. destruct (slot_of_target s r i Htr) as [Hsr Hmr].
+      assert (Hrin : In r (a_order a)) by (apply R3; assumption).
+      split; [|exact Hrin]. rewrite R1, <- Hsr. apply posN_map_inj.
+      intros y Hy He. eapply NoDup_map_inj; eauto. rewrite <- R1. apply (mi_nd_order s MI). }
+    constructor; cbn [a_order a_dropped].
+    + rewrite Hmp. destruct Hsb as (Hsb & _ & _).
+      destruct bl as [|p|p|r|r]; cbn [loc_of] in Hloc; cbn [a_ins].
+      * injection Hloc as <-. cbn [l_ins] in Hlins. injection Hlins as <-.
+        rewrite map_app, Hmap, <- R1. cbn. rewrite Hsb. reflexivity.
+      * injection Hloc as <-. cbn [l_ins] in Hlins. injection Hlins as <-.
+        rewrite insert_at_map, Hmap, <- R1, Hsb. f_equal. rewrite R1, map_length. reflexivity.
+      * injection Hloc as <-. cbn [l_ins] in Hlins. injection Hlins as <-.
+        rewrite insert_at_map, Hmap, <- R1, Hsb. f_equal. rewrite R1, map_length. reflexivity.
+      * apply andb_prop in Href. destruct Href as [Har Hmr]. apply is_member_target in Hmr. destruct Hmr as [i Htr].
+        rewrite Htr in Hloc. injection Hloc as <-. cbn [l_ins] in Hlins.
+        destruct (Hpos r i Har Htr) as [Hp Hrin]. rewrite Hp in Hlins.
+        destruct (posN r (a_order a)) as [q|]; [|discriminate]. injection Hlins as <-.
+        rewrite insert_at_map, Hmap, <- R1, Hsb. reflexivity.
+      * apply andb_prop in Href. destruct Href as [Har Hmr]. apply is_member_target in Hmr. destruct Hmr as [i Htr].
+        rewrite Htr in Hloc. injection Hloc as <-. cbn [l_ins] in Hlins.
+        destruct (Hpos r i Har Htr) as [Hp Hrin]. rewrite Hp in Hlins.
+        destruct (posN r (a_order a)) as [q|]; [|discriminate]. injection Hlins as <-.
+        rewrite insert_at_map, Hmap, <- R1, Hsb. reflexivity.
+    + intros y Hy. apply HaIn in Hy. destruct Hy as [->|Hy]; [apply Hsb|].
+      destruct (Hsl y) as (_ & -> & _); [intros ->; tauto | apply R2; exact Hy].
+    + intros y Hay Hmy. destruct (N.eq_dec y b) as [->|Hn].
+      * destruct bl as [|p|p|r|r]; cbn [a_ins].
+        -- apply in_or_app. right. left. reflexivity.
+        -- apply insert_at_In. auto.
+        -- apply insert_at_In. auto.
+        -- apply andb_prop in Href. destruct Href as [Har Hmr]. apply is_member_target in Hmr. destruct Hmr as [i Htr].
+           destruct (Hpos r i Har Htr) as [_ Hrin]. destruct (posN_In r _ Hrin) as [q ->]. apply insert_at_In. auto.
+        -- apply andb_prop in Href. destruct Href as [Har Hmr]. apply is_member_target in Hmr. destruct Hmr as [i Htr].
+           destruct (Hpos r i Har Htr) as [_ Hrin]. destruct (posN_In r _ Hrin) as [q ->]. apply insert_at_In. auto.
+      * destruct (Hsl y Hn) as (_ & Em & Ea). rewrite Ea in Hay. rewrite Em in Hmy.
+        specialize (R3 y Hay Hmy).
+        destruct bl as [|p|p|r|r]; cbn [a_ins].
+        -- apply in_or_app. auto.
+        -- apply insert_at_In. auto.
+        -- apply insert_at_In. auto.
+        -- destruct (posN r (a_order a)); [apply insert_at_In|]; auto.
+        -- destruct (posN r (a_order a)); [apply insert_at_In|]; auto.
+    + intros y Hy. apply HaIn in Hy. destruct Hy as [->|Hy].
+      * destruct Hsb as (_ & _ & ->). cbn. apply memN_false. intros Hd. rewrite (R5 b Hd) in Ha. discriminate.
+      * destruct (Hsl y) as (_ & _ & ->); [intros ->; tauto | apply R4; exact Hy].
+    + intros y Hy. destruct (N.eq_dec y b) as [->|Hn].
+      * rewrite (R5 b Hy) in Ha. discriminate.
+      * destruct (Hsl y Hn) as (_ & _ & ->). auto.
+    + intros y Hy. apply HaIn in Hy. rewrite Hmp. destruct Hy as [->|Hy].
+      * destruct Hsb as (-> & _ & ->). rewrite Hdef. reflexivity.
+      * destruct (Hsl y) as (-> & _ & ->); [intros ->; tauto|].
+        fold (zflag m1 (slot_of s y)). rewrite Hzf; [apply R6; exact Hy|]. rewrite R1. apply in_map. exact Hy.
+Qed.
+
+Section Mark.
+  Variable W : N.
+
+  Lemma ms_mark_zombie_spec m idx : CoreInv m -> In idx (ms_order m) ->
+    exists first rest, ms_order m = first :: rest /\
+    let m' := ms_mark_zombie W m idx in
+    CoreInv m' /\ visible m' = visible m /\
+    (first = idx ->
+       ms_order m' = rest /\ ~ In idx rest
+       /\ forall j, j <> idx -> nthN (ms_members m') j member_default = nthN (ms_members m) j member_default)
+    /\ (first <> idx ->
+       ms_order m' = ms_order m
+       /\ nthN (ms_members m') idx member_default
+          = mkmem (m_lines (nthN (ms_members m) idx member_default)) true
+       /\ (forall j, j <> idx -> nthN (ms_members m') j member_default = nthN (ms_members m) j member_default)
+       /\ ms_zombie_lines m' = ms_zombie_lines m /\ ms_target m' = ms_target m).
+  Proof.
+    intros CI Hi. destruct (ms_order m) as [|first rest] eqn:Ho; [destruct Hi|].
+    exists first, rest. split; [reflexivity|]. cbn zeta. unfold ms_mark_zombie. rewrite Ho.
+    pose proof (ci_nd_order m CI) as Hnd. rewrite Ho in Hnd. inversion Hnd as [|? ? Hfr Hr]; subst.
+    destruct (N.eqb_spec idx first) as [->|Hne]; cbn [negb].
+    - set (m0 := set_ms_target _ _).
+      assert (Hs : same_core m m0) by (repeat split).
+      assert (CI0 : CoreInv m0) by (eapply same_core_inv; eauto).
+      assert (Hnf : ~ In first (ms_free m0)).
+      { apply (ci_disj m0 CI0). unfold m0. cbn. rewrite Ho. left. reflexivity. }
+      destruct (remove_idx_fields m0 first Hnf) as (Em & Ef & Eo).
+      destruct (remove_idx_other m0 first) as (_ & _ & _ & Et).
+      split; [|split; [|split]].
+      + apply remove_idx_core; auto. left. unfold m0. cbn. rewrite Ho. left. reflexivity.
+      + unfold visible. rewrite Et. unfold m0. cbn. unfold target_adjust_keep.
+        destruct (ms_target m); reflexivity.
+      + intros _. split; [|split].
+        * rewrite Eo. unfold m0. cbn. rewrite Ho. cbn. rewrite N.eqb_refl. cbn. apply filter_neq_notin. exact Hfr.
+        * exact Hfr.
+        * intros j Hj. rewrite Em. unfold m0. cbn. apply nthN_updN_neq. congruence.
+      + intros Hc. congruence.
+    - assert (Hil : (N.to_nat idx < length (ms_members m))%nat).
+      { apply (ci_bound m CI). left. rewrite Ho. exact Hi. }
+      split; [|split; [|split]].
+      + destruct CI as [A B C D E F]. constructor; cbn; auto.
+        * intros j Hj. rewrite updN_length. auto.
+        * rewrite updN_length. exact E.
+        * intros j Hj. rewrite nthN_updN_neq; auto. intros <-. apply (C idx); [rewrite Ho; exact Hi | exact Hj].
+      + reflexivity.
+      + intros Hc. congruence.
+      + intros _. cbn. repeat split; auto.
+        * rewrite nthN_updN_eq by exact Hil. reflexivity.
+        * intros j Hj. apply nthN_updN_neq. congruence.
+  Qed.
+End Mark.
+
+Lemma mark_sim W s a b :
+  MInv s -> Refines s a -> alive s b = true ->
+  let s1 := upd_bar (mark_zombie W s b) b (fun x => set_b_alive x false) in
+  MInv s1 /\ Refines s1 (a_struct a (ODrop b)).
+Proof.
+  intros MI RF Ha s1. pose proof (MInv_core s MI) as CI.
+  pose proof (alive_inrange s b Ha) as Hl.
+  assert (Hbars : s_bars (mark_zombie W s b) = s_bars s).
+  { unfold mark_zombie. destruct (b_target (get_bar s b)); reflexivity. }
+  assert (Hgb : get_bar s1 b = set_b_alive (get_bar s b) false).
+  { unfold s1. rewrite get_upd_same by (rewrite Hbars; exact Hl). unfold get_bar. rewrite Hbars. reflexivity. }
+  assert (Hgo : forall b', b' <> b -> get_bar s1 b' = get_bar s b').
+  { intros b' Hn. unfold s1. rewrite get_upd_other by congruence. unfold get_bar. rewrite Hbars. reflexivity. }
+  assert (Hsl : forall y, slot_of s1 y = slot_of s y /\ is_member s1 y = is_member s y).
+  { intros y. unfold slot_of, is_member. destruct (N.eq_dec y b) as [->|Hn]; [rewrite Hgb | rewrite Hgo by exact Hn]; auto. }
+  assert (Hal : forall y, y <> b -> alive s1 y = alive s y).
+  { intros y Hn. unfold alive. rewrite Hgo by exact Hn. reflexivity. }
+  assert (Hab : alive s1 b = false) by (unfold alive; rewrite Hgb; reflexivity).
+  assert (Hmp : s_mp s1 = s_mp (mark_zombie W s b)) by reflexivity.
+  destruct RF as [R1 R2 R3 R4 R5 R6].
+  assert (Hmap : map (slot_of s1) (a_order a) = map (slot_of s) (a_order a)) by (apply map_ext; intros; apply Hsl).
+  assert (Hdead : forall y, y <> b -> In y (a_order a) -> memN y (b :: a_dropped a) = negb (alive s1 y)).
+  { intros y Hn Hy. rewrite Hal by exact Hn. cbn. rewrite (proj2 (N.eqb_neq y b) Hn). cbn. apply R4. exact Hy. }
+  assert (Hdead5 : forall y, In y (b :: a_dropped a) -> alive s1 y = false).
+  { intros y [<-|Hy]; [exact Hab|]. destruct (N.eq_dec y b) as [->|Hn]; [exact Hab|]. rewrite Hal by exact Hn. auto. }
+  destruct (b_target (get_bar s b)) as [|tg|idx] eqn:Ht.
+  - (* detached bar *)
+    assert (Hm : s_mp s1 = s_mp s) by (rewrite Hmp; unfold mark_zombie; rewrite Ht; reflexivity).
+    assert (Hnb : ~ In b (a_order a)).
+    { intros Hin. specialize (R2 b Hin). unfold is_member in R2. rewrite Ht in R2. discriminate. }
+    split.
+    + apply MInv_of; rewrite ?Hm; auto.
+      * intros b' i Ha' Ht'. assert (Hn : b' <> b) by (intros ->; congruence).
+        unfold alive in Ha'. rewrite Hgo in Ha', Ht' by exact Hn. apply (mi_alive s MI b' i Ha' Ht').
+      * intros b1 b2 i A1 A2 T1 T2.
+        assert (N1 : b1 <> b) by (intros ->; congruence). assert (N2 : b2 <> b) by (intros ->; congruence).
+        unfold alive in A1, A2. rewrite Hgo in A1, A2, T1, T2 by assumption. eapply (mi_distinct s MI); eauto.
+    + assert (Hst : a_order (a_struct a (ODrop b)) = a_order a /\ a_dropped (a_struct a (ODrop b)) = b :: a_dropped a).
+      { cbn [a_struct]. destruct (a_order a) as [|h t] eqn:Eo; [auto|].
+        destruct (N.eqb_spec h b) as [->|Hn]; [exfalso; apply Hnb; left; reflexivity | auto]. }
+      destruct Hst as [E1 E2]. constructor; rewrite ?E1, ?E2, ?Hm.
+      * rewrite Hmap. exact R1.
+      * intros y Hy. rewrite (proj2 (Hsl y)). auto.
+      * intros y Hay Hmy. assert (Hn : y <> b) by (intros ->; congruence).
+        rewrite Hal in Hay by exact Hn. rewrite (proj2 (Hsl y)) in Hmy. auto.
+      * intros y Hy. apply Hdead; [intros ->; tauto | exact Hy].
+      * exact Hdead5.
+      * intros y Hy. rewrite (proj1 (Hsl y)), Hal by (intros ->; tauto). auto.
+  - (* bar with its own terminal *)
+    assert (Hm : s_mp s1 = s_mp s) by (rewrite Hmp; unfold mark_zombie; rewrite Ht; reflexivity).
+    assert (Hnb : ~ In b (a_order a)).
+    { intros Hin. specialize (R2 b Hin). unfold is_member in R2. rewrite Ht in R2. discriminate. }
+    split.
+    + apply MInv_of; rewrite ?Hm; auto.
+      * intros b' i Ha' Ht'. assert (Hn : b' <> b) by (intros ->; congruence).
+        unfold alive in Ha'. rewrite Hgo in Ha', Ht' by exact Hn. apply (mi_alive s MI b' i Ha' Ht').
+      * intros b1 b2 i A1 A2 T1 T2.
+        assert (N1 : b1 <> b) by (intros ->; congruence). assert (N2 : b2 <> b) by (intros ->; congruence).
+        unfold alive in A1, A2. rewrite Hgo in A1, A2, T1, T2 by assumption. eapply (mi_distinct s MI); eauto.
+    + assert (Hst : a_order (a_struct a (ODrop b)) = a_order a /\ a_dropped (a_struct a (ODrop b)) = b :: a_dropped a).
+      { cbn [a_struct]. destruct (a_order a) as [|h t] eqn:Eo; [auto|].
+        destruct (N.eqb_spec h b) as [->|Hn]; [exfalso; apply Hnb; left; reflexivity | auto]. }
+      destruct Hst as [E1 E2]. constructor; rewrite ?E1, ?E2, ?Hm.
+      * rewrite Hmap. exact R1.
+      * intros y Hy. rewrite (proj2 (Hsl y)). auto.
+      * intros y Hay Hmy. assert (Hn : y <> b) by (intros ->; congruence).
+        rewrite Hal in Hay by exact Hn. rewrite (proj2 (Hsl y)) in Hmy. auto.
+      * intros y Hy. apply Hdead; [intros ->; tauto | exact Hy].
+      * exact Hdead5.
+      * intros y Hy. rewrite (proj1 (Hsl y)), Hal by (intros ->; tauto). auto.
+  - (* member *)
+    destruct (mi_alive s MI b idx Ha Ht) as [Hio Hzf].
+    destruct (slot_of_target s b idx Ht) as [Hsb Hmb].
+    assert (Hbin : In b (a_order a)) by (apply R3; assumption).
+    assert (Hm : s_mp s1 = ms_mark_zombie W (s_mp s) idx) by (rewrite Hmp; unfold mark_zombie; rewrite Ht; reflexivity).
+    destruct (ms_mark_zombie_spec W (s_mp s) idx CI Hio) as (first & rest & Ho & CI' & Hvis & Hhead & Hnon).
+    assert (Hinj : forall y, In y (a_order a) -> slot_of s y = idx -> y = b).
+    { intros y Hy He. apply (NoDup_map_inj (slot_of s) (a_order a)); auto; [rewrite <- R1; apply (mi_nd_order s MI) | congruence]. }
+    destruct (a_order a) as [|h t] eqn:Eo; [destruct Hbin|].
+    rewrite R1 in Ho. cbn [map] in Ho. injection Ho as Hfirst Hrest.
+    destruct (N.eqb_spec h b) as [->|Hhb].
+    + (* the head of the list: reaped at once *)
+      assert (Hfi : first = idx) by congruence.
+      destruct (Hhead Hfi) as (Eo' & Hnr & Emem).
+      assert (Hnt : ~ In b t).
+      { intros Hin. apply Hnr. rewrite <- Hrest, <- Hsb. apply in_map. exact Hin. }
+      assert (Hst : a_struct (mkas (b :: t) (a_dropped a)) (ODrop b) = mkas t (b :: a_dropped a)).
+      { cbn [a_struct a_order a_dropped]. rewrite N.eqb_refl. reflexivity. }
+      assert (Hslot_t : forall y, In y t -> slot_of s y <> idx).
+      { intros y Hy He. assert (y = b) by (apply Hinj; [right; exact Hy | exact He]). subst. tauto. }
+      split.
+      * apply MInv_of; rewrite ?Hm; auto.
+        -- intros b' i Ha' Ht'. assert (Hn : b' <> b) by (intros ->; congruence).
+           unfold alive in Ha'. rewrite Hgo in Ha', Ht' by exact Hn.
+           destruct (mi_alive s MI b' i Ha' Ht') as [Hi Hz].
+           assert (Hne : i <> idx) by (intros ->; apply Hn; eapply (mi_distinct s MI); eauto).
+           split.
+           ++ rewrite Eo', <- Hrest. rewrite R1 in Hi. cbn [map] in Hi. destruct Hi as [Hi|Hi]; [congruence | exact Hi].
+           ++ unfold zflag. rewrite Emem by exact Hne. exact Hz.
+        -- intros b1 b2 i A1 A2 T1 T2.
+           assert (N1 : b1 <> b) by (intros ->; congruence). assert (N2 : b2 <> b) by (intros ->; congruence).
+           unfold alive in A1, A2. rewrite Hgo in A1, A2, T1, T2 by assumption. eapply (mi_distinct s MI); eauto.
+      * replace a with (mkas (b :: t) (a_dropped a)) by (destruct a; cbn in *; congruence).
+        rewrite Hst. constructor; cbn [a_order a_dropped]; rewrite ?Hm.
+        -- rewrite Eo', <- Hrest. apply map_ext. intros y. symmetry. apply Hsl.
+        -- intros y Hy. rewrite (proj2 (Hsl y)). apply R2. right. exact Hy.
+        -- intros y Hay Hmy. assert (Hn : y <> b) by (intros ->; congruence).
+           rewrite Hal in Hay by exact Hn. rewrite (proj2 (Hsl y)) in Hmy.
+           destruct (R3 y Hay Hmy) as [He|Hin]; [congruence | exact Hin].
+        -- intros y Hy. apply Hdead; [intros ->; tauto | right; exact Hy].
+        -- exact Hdead5.
+        -- intros y Hy. rewrite (proj1 (Hsl y)), Hal by (intros ->; tauto).
+           rewrite Emem by (apply Hslot_t; exact Hy). apply R6. right. exact Hy.
+    + (* further down: flagged, waits for the head *)
+      assert (Hfi : first <> idx).
+      { intros He. apply Hhb. apply Hinj; [left; reflexivity | congruence]. }
+      destruct (Hnon Hfi) as (Eo' & Eidx & Emem & _ & _).
+      assert (Hst : a_struct (mkas (h :: t) (a_dropped a)) (ODrop b) = mkas (h :: t) (b :: a_dropped a)).
+      { cbn [a_struct a_order a_dropped]. rewrite (proj2 (N.eqb_neq h b) Hhb). reflexivity. }
+      split.
+      * apply MInv_of; rewrite ?Hm; auto.
+        -- intros b' i Ha' Ht'. assert (Hn : b' <> b) by (intros ->; congruence).
+           unfold alive in Ha'. rewrite Hgo in Ha', Ht' by exact Hn.
+           destruct (mi_alive s MI b' i Ha' Ht') as [Hi Hz].
+           assert (Hne : i <> idx) by (intros ->; apply Hn; eapply (mi_distinct s MI); eauto).
+           split; [rewrite Eo'; exact Hi|]. unfold zflag. rewrite Emem by exact Hne. exact Hz.
+        -- intros b1 b2 i A1 A2 T1 T2.
+           assert (N1 : b1 <> b) by (intros ->; congruence). assert (N2 : b2 <> b) by (intros ->; congruence).
+           unfold alive in A1, A2. rewrite Hgo in A1, A2, T1, T2 by assumption. eapply (mi_distinct s MI); eauto.
+      * replace a with (mkas (h :: t) (a_dropped a)) by (destruct a; cbn in *; congruence).
+        rewrite Hst. constructor; cbn [a_order a_dropped]; rewrite ?Hm.
+        -- rewrite Eo', R1. apply map_ext. intros y. symmetry. apply Hsl.
+        -- intros y Hy. rewrite (proj2 (Hsl y)). apply R2. exact Hy.
+        -- intros y Hay Hmy. assert (Hn : y <> b) by (intros ->; congruence).
+           rewrite Hal in Hay by exact Hn. rewrite (proj2 (Hsl y)) in Hmy. apply R3; assumption.
+        -- intros y Hy. destruct (N.eq_dec y b) as [->|Hn].
+           ++ rewrite Hab. cbn. rewrite N.eqb_refl. reflexivity.
+           ++ apply Hdead; assumption.
+        -- exact Hdead5.
+        -- intros y Hy. rewrite (proj1 (Hsl y)). destruct (N.eq_dec y b) as [->|Hn].
+           ++ rewrite Hab, Hsb, Eidx. reflexivity.
+           ++ rewrite Hal by exact Hn. rewrite Emem; [apply R6; exact Hy|].
+              intros He. apply Hn. apply Hinj; assumption.
+Qed.
+
+(* ------------------------------------------------------------------ C02 (1): the simulation *)
+Section Sim.
+  Variable W H : N.
+  Variable fails : N -> bool.
+  Local Notation step_sys := (step_sys W H fails).
+
+  Lemma a_struct_nonstruct a o : structural o = false -> a_struct a o = a.
+  Proof. destruct o; try discriminate; reflexivity. Qed.
+
+  Lemma nonstruct_sim s a now o : MInv s -> Refines s a -> op_ok s o = true -> structural o = false ->
+    exists r, MInv (step_sys s now o) /\ Refines (step_sys s now o) (a_maybe_reap r a).
+  Proof.
+    intros MI RF Hk Hs.
+    destruct (nonstruct_trans W H fails s now o MI Hk Hs) as [r T].
+    destruct (step_mp W H fails s now o) as [Emp _]. cbn [fst] in Emp. rewrite <- Emp in T.
+    exists r. apply (trans_sim s (step_sys s now o) a r MI RF); [|exact T].
+    apply step_bars_pres. exact Hs.
+  Qed.
+
+  Theorem step_sim s a now o : MInv s -> Refines s a -> op_ok s o = true ->
+    exists r, MInv (step_sys s now o) /\ Refines (step_sys s now o) (a_step r a o).
+  Proof.
+    intros MI RF Hk. destruct (structural o) eqn:Hs.
+    - destruct o; try discriminate Hs.
+      + (* drop *)
+        assert (Ha : alive s b = true) by (eapply op_ok_alive; eauto; reflexivity).
+        unfold step_sys. cbn [step fst a_step]. unfold bar_drop.
+        destruct (finished (get_bar s b)) eqn:Hf.
+        * exists false. cbn [fst a_maybe_reap]. apply mark_sim; assumption.
+        * destruct (nonstruct_sim s a now (OFinish b (b_on_finish (get_bar s b))) MI RF) as (r & MI1 & RF1).
+          { unfold op_ok. cbn. rewrite Ha. reflexivity. } { reflexivity. }
+          pose proof (step_bars_pres W H fails s now (OFinish b (b_on_finish (get_bar s b))) eq_refl) as BP.
+          unfold MultiSpec.step_sys in MI1, RF1, BP. cbn [step fst] in MI1, RF1, BP.
+          destruct (bar_finish W H fails s b (b_on_finish (get_bar s b)) now) as [s1 e]. cbn [fst] in *.
+          exists r. apply mark_sim; auto. destruct (BP b) as [-> _]. exact Ha.
+      + (* insert *)
+        exists false. cbn [a_step a_maybe_reap].
+        pose proof Hk as Hk'. unfold op_ok in Hk'. cbn [op_bar] in Hk'.
+        apply andb_prop in Hk'. destruct Hk' as [Ha Hk']. apply andb_prop in Hk'. destruct Hk' as [Hnm Href].
+        apply negb_true_iff in Hnm.
+        assert (Hloc : exists l, loc_of s loc = Some l /\
+                  (forall r, (loc = BAfter r \/ loc = BBefore r) -> In (slot_of s r) (ms_order (s_mp s))
+                             /\ (l = LAfter (slot_of s r) \/ l = LBefore (slot_of s r)))).
+        { destruct loc as [|p|p|r|r]; cbn [loc_of]; try (eexists; split; [reflexivity|]; intros r [Hc|Hc]; discriminate).
+          - apply andb_prop in Href. destruct Href as [Har Hmr]. destruct (is_member_target s r Hmr) as [i Hi].
+            rewrite Hi. eexists; split; [reflexivity|]. intros r' [Hc|Hc]; [|discriminate]. injection Hc as <-.
+            destruct (slot_of_target s r i Hi) as [-> _]. split; [eapply (mi_alive s MI); eauto | auto].
+          - apply andb_prop in Href. destruct Href as [Har Hmr]. destruct (is_member_target s r Hmr) as [i Hi].
+            rewrite Hi. eexists; split; [reflexivity|]. intros r' [Hc|Hc]; [discriminate|]. injection Hc as <-.
+            destruct (slot_of_target s r i Hi) as [-> _]. split; [eapply (mi_alive s MI); eauto | auto]. }
+        destruct Hloc as (l & Hloc & Hrefs).
+        assert (Hins : exists m1 idx, ms_insert (s_mp s) l = Some (m1, idx)).
+        { unfold ms_insert. destruct (ms_free (s_mp s)) as [|i fr];
+          (destruct loc as [|p|p|r|r]; cbn [loc_of] in Hloc;
+           [ injection Hloc as <-; eexists; eexists; reflexivity
+           | injection Hloc as <-; eexists; eexists; reflexivity
+           | injection Hloc as <-; eexists; eexists; reflexivity
+           | destruct (Hrefs r (or_introl eq_refl)) as [Hin [Hl|Hl]]; subst l;
+             cbn [ms_order set_ms_free set_ms_members]; destruct (posN_In _ _ Hin) as [q ->]; eexists; eexists; reflexivity
+           | destruct (Hrefs r (or_intror eq_refl)) as [Hin [Hl|Hl]]; subst l;
+             cbn [ms_order set_ms_free set_ms_members]; destruct (posN_In _ _ Hin) as [q ->]; eexists; eexists; reflexivity ]). }
+        destruct Hins as (m1 & idx & Hins).
+        pose proof (insert_sim s a loc b l m1 idx MI RF Hk Hloc Hins) as Hsim. cbn zeta in Hsim.
+        unfold step_sys. cbn [step]. fold (loc_of s loc). rewrite Hloc, Hins. cbn [fst].
+        unfold bar_set_target. change (get_bar (set_s_mp s m1) b) with (get_bar s b).
+        unfold is_member in Hnm. destruct (b_target (get_bar s b)); try discriminate Hnm; cbn [fst]; exact Hsim.
+      + (* remove *)
+        assert (Ha : alive s b = true) by (eapply op_ok_alive; eauto; reflexivity).
+        unfold step_sys. cbn [step a_step].
+        destruct (b_target (get_bar s b)) as [|tg|idx] eqn:Ht.
+        * exists false. cbn [fst a_maybe_reap a_struct]. split; [exact MI|].
+          rewrite filter_neq_notin; [destruct a; exact RF|].
+          intros Hin. pose proof (rf_member s a RF b Hin) as Hm. unfold is_member in Hm. rewrite Ht in Hm. discriminate.
+        * exists false. cbn [fst a_maybe_reap a_struct]. split; [exact MI|].
+          rewrite filter_neq_notin; [destruct a; exact RF|].
+          intros Hin. pose proof (rf_member s a RF b Hin) as Hm. unfold is_member in Hm. rewrite Ht in Hm. discriminate.
+        * destruct (remove_sim s a b idx MI RF Ha Ht) as [MI1 RF1]. cbn zeta in MI1, RF1.
+          set (s1 := set_s_mp (upd_bar s b (fun x => set_b_target x THidden)) (ms_remove_idx (s_mp s) idx)) in *.
+          cbn [s_mp upd_bar set_s_bars s_calls].
+          pose proof (ms_draw_trans W H fails (s_mp s1) true None now (s_calls s) (MInv_core s1 MI1)) as T.
+          unfold fst4 in T. unfold s1 in T at 2. cbn [s_mp set_s_mp] in T.
+          destruct (ms_draw W H fails (ms_remove_idx (s_mp s) idx) true None now (s_calls s)) as [[[m2 e] c'] ok].
+          cbn [fst] in *. eexists.
+          eapply (trans_sim s1 _ _ _ MI1 RF1); [|exact T]. apply bars_pres_refl. reflexivity.
+    - destruct (nonstruct_sim s a now o MI RF Hk Hs) as (r & MI1 & RF1). exists r. split; [exact MI1|].
+      replace (a_step r a o) with (a_maybe_reap r a); [exact RF1|].
+      unfold a_step. rewrite a_struct_nonstruct by exact Hs. destruct o; try reflexivity. discriminate Hs.
+  Qed.
+End Sim.
+
+(* ------------------------------------------------------------------ runs *)
+Section Runs.
+  Variable W H : N.
+  Variable fails : N -> bool.
+
+  Lemma init_inv s : init_ok s -> MInv s /\ Refines s (mkas [] []).
+  Proof.
+    intros (Em & Ef & Eo & Hn).
+    assert (Hno : forall b i, b_target (get_bar s b) = TMulti i -> False).
+    { intros b i Ht. destruct (slot_of_target s b i Ht) as [_ Hm]. rewrite Hn in Hm. discriminate. }
+    split.
+    - apply MInv_of.
+      + constructor; rewrite ?Em, ?Ef, ?Eo; cbn; try constructor; tauto.
+      + intros b i _ Ht. exfalso. eauto.
+      + intros b1 b2 i _ _ Ht _. exfalso. eauto.
+    - constructor; cbn; try tauto; try exact Eo.
+      intros b Ha Hm. rewrite Hn in Hm. discriminate.
+  Qed.
+
+  Theorem sim_run ops : forall s a, MInv s -> Refines s a -> hist_ok W H fails s ops -> SimRun W H fails s a ops.
+  Proof.
+    induction ops as [|[now o] rest IH]; intros s a MI RF Hh.
+    - constructor; assumption.
+    - destruct Hh as [Hk Hr]. destruct (step_sim W H fails s a now o MI RF Hk) as (r & MI' & RF').
+      apply (SR_cons W H fails s a now o r rest MI RF). apply IH; assumption.
+  Qed.
+
+  Lemma sim_run_end ops : forall s a, SimRun W H fails s a ops ->
+    exists a', MInv (run W H fails s ops) /\ Refines (run W H fails s ops) a'.
+  Proof.
+    induction ops as [|[now o] rest IH]; intros s a Hs; inversion Hs; subst.
+    - exists a. auto.
+    - cbn [run]. eapply IH; eauto.
+  Qed.
+
+  (** consequences for the final state of any valid history *)
+  Theorem run_inv s ops : init_ok s -> hist_ok W H fails s ops ->
+    let s' := run W H fails s ops in
+    MInv s' /\ exists ord, NoDup ord /\ ms_order (s_mp s') = map (slot_of s') ord
+                           /\ (forall b, In b ord -> is_member s' b = true)
+                           /\ (forall b, alive s' b = true -> is_member s' b = true -> In b ord).
+  Proof.
+    intros Hi Hh. destruct (init_inv s Hi) as [MI RF].
+    destruct (sim_run_end ops s _ (sim_run ops s _ MI RF Hh)) as (a' & MI' & RF').
+    split; [exact MI'|]. exists (a_order a'). split; [eapply Refines_NoDup; eauto|].
+    destruct RF'. auto.
+  Qed.
+
+  (** C02 (4): a concurrent execution is the fold of [step] over an interleaving of the
+      per-thread call lists: every theorem about histories applies to every interleaving *)
+  Theorem interleaving_sim (ts : list (list (N * op))) l s :
+    Merge ts l -> init_ok s -> hist_ok W H fails s l -> SimRun W H fails s (mkas [] []) l.
+  Proof. intros _ Hi Hh. destruct (init_inv s Hi) as [MI RF]. apply sim_run; assumption. Qed.
+
+  Lemma Merge_length {A} (ts : list (list A)) l : Merge ts l -> length l = length (concat ts).
+  Proof.
+    induction 1 as [ts Hf|pre x t post l Hm IH].
+    - induction Hf as [|t r Ht Hr IHr]; [reflexivity|]. subst. cbn. exact IHr.
+    - cbn [length]. rewrite IH, !concat_app. cbn [concat]. rewrite !app_length. cbn [length app]. lia.
+  Qed.
+
+  Lemma Merge_In {A} (ts : list (list A)) l : Merge ts l -> forall x, In x l <-> In x (concat ts).
+  Proof.
+    induction 1 as [ts Hf|pre y t post l Hm IH]; intros x.
+    - split; [intros []|]. induction Hf as [|t r Ht Hr IHr]; [tauto|]. subst. cbn. exact IHr.
+    - cbn [In]. rewrite IH, !concat_app, !in_app_iff. cbn [concat]. rewrite !in_app_iff. cbn [In app]. tauto.
+  Qed.
+End Runs.
